@@ -110,6 +110,10 @@ def run_shard(shard, out_base):
         for strict in modes:
             judge.judge_bic(mon, t, strict, tag, "accept")
 
+    if part == 0:
+        for w_ in gen.BIC_WORDS:
+            for v_ in (w_, w_.lower(), w_.capitalize(), w_[:3] + " " + w_[3:]):
+                J(v_, "vocabulary")
     # B1 registry BICs
     bics = sorted({e.get("bic", "") for e in data.banks() if e.get("bic")})
     for b in bics[part::parts]:
